@@ -488,6 +488,40 @@ fn validate_spec(cx: &mut Ctx) {
     }
 }
 
+/// C17_mime_statement as a test: on printable ASCII (all a data: URL header can hand to the MIME parser)
+/// the crate's Mime::from_str against Spec/MimeSniff.v; FIXED inputs in both tiers
+fn mime_differential(cx: &mut Ctx, thorough: bool) {
+    const CLASSES: [char; 9] = ['a', 'A', '/', ';', '=', '"', '\\', ' ', '%'];
+    const PREFIXES: [&str; 4] = ["", "a/b;", "a/b;x=", "a/b;x=\""];
+    let one = |cx: &mut Ctx, stream: &str, t: &str| {
+        let req = format!("mimesniff {}", hexs(t));
+        let spec = cx.drv.ask(&req);
+        let imp = match t.parse::<Mime>() {
+            Err(_) => "~".to_string(),
+            Ok(m) => format!("ok {} {} {} {}", hexs(&m.type_), hexs(&m.subtype), show_params(&m.parameters), hexs(&m.to_string())),
+        };
+        cx.rep.case(stream, &format!("{}   [input {:?}]", req, t), &spec, &imp, imp != "~", if imp == "~" { "mime:failure" } else { "mime:ok" });
+    };
+    let k = if thorough { 6 } else { 4 };
+    for pre in PREFIXES {
+        for_all_strings(&CLASSES, k, |s| {
+            let t: String = pre.chars().chain(s.iter().copied()).collect();
+            one(cx, "mime-differential-exh", &t);
+        });
+    }
+    let mut rng = Rng::new(0xC19);
+    let n = if thorough { 200_000 } else { 20_000 };
+    for _ in 0..n {
+        let mut t = String::new();
+        let k = 1 + rng.below(5);
+        for _ in 0..k {
+            t.push_str(pick_s(&mut rng, &HEAD_ATOMS));
+        }
+        let t: String = t.chars().filter(|c| (' '..='~').contains(c)).collect();
+        one(cx, "mime-differential-rnd", &t);
+    }
+}
+
 /// the byte classes of parse_header / to_percent_encoded as observable behaviour
 fn table_inputs() -> Vec<String> {
     let mut v = vec![];
@@ -589,6 +623,7 @@ fn run_corr(args: &Args) -> Report {
 
     // ---- (b) the specification side
     validate_spec(&mut cx);
+    mime_differential(&mut cx, thorough);
 
     // ---- (c) crate <-> URL parser model + Fetch processor: FIXED seed in both tiers
     run_differential(&mut cx, thorough, &corpus, &wpt);
